@@ -5,3 +5,4 @@ import PflDrv.PDA
 import PflDrv.FST
 import PflDrv.Indexed
 import PflDrv.Regex
+import PflDrv.Feature
